@@ -14,7 +14,7 @@ from .bstr import BStr, show
 TIER = os.environ.get("VERIF_TIER", "quick")
 THOROUGH = TIER == "thorough"
 SEED = int(os.environ.get("VERIF_SEED", "0"))
-KF_FILE = Path("/verif/known_findings.json")
+KF_FILE = Path(__file__).resolve().parents[2] / "known_findings.json"
 
 
 def known_regions(prop: str) -> dict[str, dict]:
